@@ -107,4 +107,69 @@ Definition global_maximum2 (o : itab2) : res T :=
   rbind (map_res max_element (jf o)) (fun row_maxima =>
   rbind (min_element row_minima) (fun f_min => rbind (max_element row_maxima) (fun f_max =>
     Ok (nmax Ops (jpre o * f_min) (jpre o * f_max))%num)))).
+
+(** ** The other constructors (the objects the queries above may be made on).
+    Interpolation():  x_val = {-1.0, 0.0, 1.0}, y_val = {0.0, 0.0, 0.0};  *this = Interpolation(x_val, y_val);
+    Interpolation_2D():  the same abscissae in both directions, a 3x3 table of 0.0 *)
+Definition default_xs : list T := [lit (-1); lit 0; lit 1].
+Definition construct_default : res itab :=
+  construct Ops default_xs (repeat (lit 0) 3) (nneg Ops (n1 Ops)) (nneg Ops (n1 Ops)).
+Definition construct2_default : res itab2 :=
+  let m1 := nneg Ops (n1 Ops) in
+  construct2 Ops default_xs default_xs (repeat (repeat (lit 0) 3) 3) m1 m1 m1.
+
+(** Interpolation_2D(data_table, x_dim, y_dim, f_dim): rows (x, y, f), x-major.
+    first loop: every row must have 3 entries; the first two columns are collected *)
+Fixpoint split_rows3 (data : list (list T)) : res (list T * list T) :=
+  match data with
+  | [] => Ok ([], [])
+  | r :: rest =>
+      match r with
+      | [x; y; _] => rbind (split_rows3 rest) (fun xy => Ok (x :: fst xy, y :: snd xy))
+      | _ => Exit
+      end
+  end.
+(** std::sort on doubles without NaN: the non-decreasing rearrangement (modelled by specification, as an insertion sort) *)
+Fixpoint sort_insert (x : T) (l : list T) : list T :=
+  match l with
+  | [] => [x]
+  | a :: r => if nltb Ops x a then x :: l else a :: sort_insert x r
+  end.
+Definition sort_list (l : list T) : list T := fold_right sort_insert [] l.
+(** x.erase(unique(x.begin(), x.end()), x.end()): the first element of every run of == elements *)
+Fixpoint unique_from (a : T) (r : list T) : list T :=
+  match r with
+  | [] => [a]
+  | b :: r' => if neqb Ops a b then unique_from a r' else a :: unique_from b r'
+  end.
+Definition unique_list (l : list T) : list T := match l with [] => [] | a :: r => unique_from a r end.
+(** the double loop  for i_x, for i_y:  if(x[i_x] != data_table[i][0] || y[i_y] != data_table[i][1]) exit;  f[i_x][i_y] = data_table[i][2]; i++ *)
+Fixpoint fill_row (xv : T) (ys : list T) (data : list (list T)) : res (list T * list (list T)) :=
+  match ys with
+  | [] => Ok ([], data)
+  | yv :: ys' =>
+      match data with
+      | [] => OOB
+      | row :: rest =>
+          match row with
+          | [dx; dy; dz] =>
+              if nneb Ops xv dx || nneb Ops yv dy then Exit
+              else rbind (fill_row xv ys' rest) (fun fr => Ok (dz :: fst fr, snd fr))
+          | _ => Exit
+          end
+      end
+  end.
+Fixpoint fill_table (xs ys : list T) (data : list (list T)) : res (list (list T)) :=
+  match xs with
+  | [] => Ok []
+  | xv :: xs' =>
+      rbind (fill_row xv ys data) (fun fr =>
+      rbind (fill_table xs' ys (snd fr)) (fun rows => Ok (fst fr :: rows)))
+  end.
+Definition construct2_table (data : list (list T)) (x_dim y_dim f_dim : T) : res itab2 :=
+  rbind (split_rows3 data) (fun xy =>
+    let x := unique_list (sort_list (fst xy)) in
+    let y := unique_list (sort_list (snd xy)) in
+    if negb (Nat.eqb (length x * length y) (length data)) then Exit
+    else rbind (fill_table x y data) (fun f => construct2 Ops x y f x_dim y_dim f_dim)).
 End Model.
